@@ -24,3 +24,5 @@ func writerInvoke(e *actor.Engine, addr string, stream remote.DRPCRemote_Receive
 func readerReceive(e *actor.Engine, stream remote.DRPCRemote_ReceiveStream) error {
 	return errors.New("export shim unavailable")
 }
+
+func unwrapDeliver(msg any) (wireDeliver, bool) { return wireDeliver{}, false }
